@@ -71,6 +71,8 @@ fn main() {
         #[cfg(feature = "c03")]
         "C03" => c03::run(seed, std::env::args().nth(3).as_deref() == Some("thorough")),
         #[cfg(feature = "c03")]
+        "C02P" => c03::run_process_for_c02(seed, std::env::args().nth(3).as_deref() == Some("thorough")),
+        #[cfg(feature = "c03")]
         "C01D" => c03::run_dispatch_for_c01(seed, std::env::args().nth(3).as_deref() == Some("thorough")),
         #[cfg(feature = "c04")]
         "C04" => c04::run(seed, std::env::args().nth(3).as_deref() == Some("thorough")),
